@@ -6,7 +6,7 @@ CXX_SOURCES = ['libs/acn/CID.cpp', 'libs/acn/CIDImpl.cpp']
 # Coq models of libc / libuuid (Libc.v) against the platform's functions: a mismatch there means
 # the libc model is wrong, not that OLA violates the property.
 SPEC_KEYS = ['ok', 'v', 'pok', 'pv', 't', 'p', 's', 'rt', 'd', 'back', 'a', 'eq', 'nil', 'wrap', 'n',
-             'pure', 'mis', 'cnt', 'exc', 'ep', 'od', 'sib', 'dead'] + ['d%d' % i for i in range(1, 12)]
+             'pure', 'mis', 'cnt', 'exc', 'ep', 'od', 'sib', 'dead', 's1', 's2', 'o'] + ['d%d' % i for i in range(1, 12)]
 # keep (out-parameter untouched by a rejected text) is what the code does but is not documented: internal
 INTERNAL_KEYS = []
 
@@ -25,6 +25,9 @@ RULE = ('every value -> text -> value for ALL 8-bit and ALL 16-bit values (both 
         'earlier non-default value (DMX: filled by SetFromString/Set/SetRangeToValue/SetChannel or copy-on-write shared with a '
         'live sibling; op dirty, 1/6 of all parse cases) and DMX texts with empty fields are applied in sequences to ONE '
         'buffer (op dmxseq): the result must be a function of the text only; '
+        'REPRINT every value type (CID, UID, IPv4, IPv6, socket address, MAC, DmxBuffer) is printed (ToString and operator<<), '
+        'given another value (operator= from an object / a temporary, std::swap, through a printed copy; DmxBuffer also Set and '
+        'SetFromString) and printed again: both texts must be those of the value held at the time (op reprint); '
         'CONTRACT printers are pure functions of the value: (1) operator<< of every value type (UID, IPv4, IPv6, '
         'socket address, MAC, CID, DmxBuffer) on a caller stream that already carries state (left/right/internal, '
         'hex, fill, pending setw) must insert exactly the ToString() text as one string field and leave the '
@@ -462,6 +465,28 @@ def gen_cases0(rng, tier):
     # text (replacing a character, and prepended / appended), for every parse entry point ------------
     for c in byte_injection_cases(rng):
         yield c
+    # ---- printers on long-lived objects: print, give the object another value, print again ------------
+    for i in range(1400 if quick else 14000):
+        ty = ('cid', 'uid', 'ip4', 'ip6', 'sa', 'mac', 'dmx')[i % 7]
+        def val():
+            if ty == 'uid':
+                return str(rng.choice([0, 1, 0x7a7000000001, (1 << 48) - 1, rng.randrange(1 << 48)]))
+            if ty == 'ip4':
+                return bytes(rng.choice([0, 1, 10, 255, rng.randrange(256)]) for _ in range(4)).hex()
+            if ty == 'sa':
+                return '%s/%d' % (bytes(rng.choice([0, 10, 255, rng.randrange(256)]) for _ in range(4)).hex(),
+                                  rng.choice([0, 80, 65535, rng.randrange(65536)]))
+            if ty == 'mac':
+                return bytes(rng.choice([0, 1, 255, rng.randrange(256)]) for _ in range(6)).hex()
+            if ty == 'ip6':
+                return ip6_hex(rng.choice(ip6_values(rng, 2)))
+            if ty == 'dmx':
+                k = rng.choice([0, 1, 2, 3, 8, 24, 512])
+                return bytes(rng.choice([0, 1, 10, 100, 255, rng.randrange(256)]) for _ in range(k)).hex() or '-'
+            return bytes(rng.choice([0, 255, rng.randrange(256)]) for _ in range(16)).hex()
+        v1 = val()
+        v2 = v1 if rng.random() < 0.1 else val()
+        yield 'reprint %s %d %s %s' % (ty, rng.randrange(6 if ty == 'dmx' else 4), v1, v2)
     # ---- operator<< on a stream that already carries format state ---------------------------------
     for i in range(1400 * (1 if quick else 10)):
         ty = ('uid', 'ip4', 'ip6', 'sa', 'mac', 'cid', 'dmx')[i % 7]
@@ -642,6 +667,8 @@ def nontrivial(payload, md):
     op = payload.split(' ', 1)[0]
     if op == 'dirty':
         op = payload.split(' ')[2]
+    if op == 'reprint':
+        return md.get('s1') != md.get('s2')
     if op == 'dmxseq':
         return any(k.startswith('d') and v != '-' for k, v in md.items())
     if op in ('dmx', 'dmxv'):
